@@ -73,6 +73,9 @@ def run(rep, tier, seed, model_ok=True, effort=1):
         valid = isinstance(ks, sv.Version) and s != ""
         # '+' starts a PEP 440 local version label: a pattern that puts the release tag behind '+' is outside the claim
         standard = vp.startswith(("v", "Y", "M", "G", "0")) and " " not in vp and "+" not in vp
+        # the claim is about dot separated numeric parts followed by one tag group (README normalisation rules)
+        body = re.split(r"\[|-TAG|PYTAG", vp, 1)[0]
+        standard = standard and re.fullmatch(r"v?[A-Z0-9]+(\.[A-Z0-9]+)*", body) is not None
         rep.case((vp, s), nontrivial=valid)
         rep.count("pep440-valid=%s" % valid)
         if not (valid and standard):
